@@ -20,7 +20,8 @@ RULE = (
     "public field API from the newer class minus the deleted fields. old=Old().parse(bytes(new)): old's known fields "
     "== projection of the tree; New().parse(bytes(old)) == tree; the reference decoder of the newer schema reads "
     "bytes(old) as the tree; the records of deleted top-level fields appear in bytes(old) byte-for-byte in arrival "
-    "order. (b) (message, tree, generated unknown records - numbers absent from the schema incl. >=2**28, "
+    "order; the decoding entry point is drawn from {parse, load, load(size), load(SIZE_DELIMITED) followed by "
+    "further stream content}. (b) (message, tree, generated unknown records - numbers absent from the schema incl. >=2**28, "
     "varint/fixed32/fixed64/LEN wire types, nested payloads - each with an insertion position): known-field snapshot "
     "unchanged, every inserted record re-emitted byte-for-byte in order, re-decoding stable. Non-trivial = >=1 "
     "deleted/unknown field actually present on the wire."
@@ -54,6 +55,35 @@ def make_older(cls, drop_top, nested_drops=None):
     older = dataclasses.make_dataclass(f"{cls.__name__}Older", fields, bases=(betterproto.Message,), eq=False, repr=False)
     _older_cache[key] = older
     return older
+
+
+_retyped_cache = {}
+
+
+def make_retyped(cls, numbers):
+    """betterproto class = cls with the fields in `numbers` re-declared with an incompatible wire type (a reader whose
+    schema disagrees with the writer's about these fields): length-delimited kinds become int32, all others string."""
+    import betterproto
+
+    key = (cls, frozenset(numbers))
+    if key in _retyped_cache:
+        return _retyped_cache[key]
+    info = BPInfo.of(cls)
+    fields = []
+    for f in dataclasses.fields(cls):
+        meta = betterproto.FieldMetadata.get(f)
+        if meta.number in numbers:
+            is_list = getattr(info.hints[f.name], "__origin__", None) is list
+            if meta.proto_type in ("string", "bytes", "message", "map") or is_list:  # arrives as LEN (lists: packed)
+                fields.append((f.name, int, betterproto.dataclass_field(meta.number, "int32", group=meta.group)))
+            else:
+                fields.append((f.name, str, betterproto.dataclass_field(meta.number, "string", group=meta.group)))
+        else:
+            fields.append((f.name, info.hints[f.name], betterproto.dataclass_field(
+                meta.number, meta.proto_type, map_types=meta.map_types, group=meta.group, wraps=meta.wraps, optional=bool(meta.optional))))
+    out = dataclasses.make_dataclass(f"{cls.__name__}Retyped", fields, bases=(betterproto.Message,), eq=False, repr=False)
+    _retyped_cache[key] = out
+    return out
 
 
 def _retarget(hint, nested_drops):
@@ -98,13 +128,38 @@ def project(schema, mi, tree, drop_top, nested_drops):
     return out
 
 
+def decode_via(obj, data: bytes, entry: str):
+    """Decode `data` into the fresh message `obj` through one of the public entry points."""
+    from io import BytesIO
+
+    import betterproto
+
+    if entry == "parse":
+        return obj.parse(data)
+    if entry == "load":
+        return obj.load(BytesIO(data))
+    if entry == "load_size":
+        return obj.load(BytesIO(data), len(data))
+    if entry == "load_delimited":
+        tail = b"\x08\x01\x7a\x01x"  # the beginning of a following message: must stay unread
+        s = BytesIO(wire.enc_varint(len(data)) + data + tail)
+        m = obj.load(s, betterproto.SIZE_DELIMITED)
+        if s.tell() != len(wire.enc_varint(len(data))) + len(data):
+            raise AssertionError(f"delimited load stopped at {s.tell()}, frame ends at {len(wire.enc_varint(len(data))) + len(data)}")
+        return m
+    raise AssertionError(entry)
+
+
+ENTRIES = ["parse", "parse", "load", "load_size", "load_delimited"]
+
+
 def targets(ctx):
     c = corpus()
     schema = c.schema
 
     # ------------------------------------------------------------------ (a) schema evolution
     @collecting
-    def evo_clauses(out, name, tree, drop_top, nested_drops, src, info):
+    def evo_clauses(out, name, tree, drop_top, nested_drops, src, info, entry="parse"):
         cls = c.bp(name)
         mi = schema.msg(f"ks.{name}")
         want = norm(schema, mi, tree)
@@ -116,7 +171,7 @@ def targets(ctx):
 
             b = guard("bytes_new", bytes, BPAdapter(schema).build(cls, mi, tree))
         Old = make_older(cls, drop_top, nested_drops)
-        old = guard("parse_old", Old().parse, b)
+        old = guard("parse_old", decode_via, Old(), b, entry)
         # known fields of the older reader = projection (snapshot by field number through the older class)
         proj = norm(schema, mi, project(schema, mi, tree, drop_top, nested_drops))
         old_mi = _older_mi(schema, mi, drop_top, nested_drops)
@@ -126,7 +181,7 @@ def targets(ctx):
         b_old = guard("bytes_old", bytes, old)
         if guard("len_old", len, old) != len(b_old):
             out.append(("older_len_vs_bytes", f"len={len(old)} bytes={len(b_old)}"))
-        new2 = guard("parse_new", cls().parse, b_old)
+        new2 = guard("parse_new", decode_via, cls(), b_old, entry)
         got = norm(schema, mi, guard("snapshot_new", snap_bp, schema, mi, new2))
         if got != want:
             out.append(("evolution_roundtrip", f"after old reader/writer: {got!r:.300}, want {want!r:.300}"))
@@ -190,18 +245,19 @@ def targets(ctx):
         nested = {k: frozenset(v) for k, v in case.get("nested", {}).items()} or None
         mi = schema.msg(f"ks.{name}")
         info = {}
-        found = evo_clauses(name, tree, drop_top, nested, case.get("src", "ref"), info)
+        entry = case.get("entry", "parse")
+        found = evo_clauses(name, tree, drop_top, nested, case.get("src", "ref"), info, entry)
         kinds = sorted({mi.by_number(n).kind for n in drop_top if mi.by_number(n) and mi.by_number(n).name in tree})
         fails = []
         for cl, d in found:
             # which single dropped field is enough?
             culprit = []
             for n in sorted(drop_top):
-                if any(c2 == cl for c2, _ in evo_clauses(name, tree, {n}, None, case.get("src", "ref"), {})):
+                if any(c2 == cl for c2, _ in evo_clauses(name, tree, {n}, None, case.get("src", "ref"), {}, entry)):
                     fi = mi.by_number(n)
                     culprit.append(fi.kind if fi else str(n))
             where = "&".join(sorted(set(culprit))) or ("nested:" + "+".join(sorted(nested)) if nested else "interaction:" + "&".join(kinds))
-            fails.append(Failure(cl, f"evo|{cl}|{where}"[:240], f"case={case!r} :: {d}"))
+            fails.append(Failure(cl, f"evo|{cl}|{where}|{entry}"[:240], f"case={case!r} :: {d}"))
         dropped_present = [n for n in drop_top if mi.by_number(n) and mi.by_number(n).name in tree]
         labs = [f"msg:{name}", f"dropped_present:{min(len(dropped_present), 4)}", f"nested:{bool(nested)}"] + [f"dropkind:{k}" for k in kinds]
         return Eval(fails, nontrivial=bool(dropped_present) or bool(nested and info.get("present")), labels=labs)
@@ -226,7 +282,7 @@ def targets(ctx):
             drop = draw(st.lists(st.sampled_from(set_nums), unique=True, min_size=1))
         else:
             drop = draw(st.lists(st.sampled_from(nums), unique=True, max_size=len(nums)))
-        case = {"msg": name, "tree": tree, "drop": sorted(drop), "src": draw(st.sampled_from(["ref", "bp"]))}
+        case = {"msg": name, "tree": tree, "drop": sorted(drop), "src": draw(st.sampled_from(["ref", "bp"])), "entry": draw(st.sampled_from(ENTRIES))}
         if name in ("Mixed", "Rec", "Scalars", "Maps", "Repeats", "Oneofs", "Optionals"):
             subs = sorted({(f.val if f.card == "map" else f).msg.split(".")[-1] for f in mi.fields
                            if (f.val if f.card == "map" else f).type == "message" and (f.val if f.card == "map" else f).wkt is None})
@@ -241,7 +297,7 @@ def targets(ctx):
 
     # ------------------------------------------------------------------ (b) unknown records
     @collecting
-    def unk_clauses(out, name, tree, unknown, positions):
+    def unk_clauses(out, name, tree, unknown, positions, entry="parse"):
         cls = c.bp(name)
         mi = schema.msg(f"ks.{name}")
         want = norm(schema, mi, tree)
@@ -252,7 +308,7 @@ def targets(ctx):
         r = c.ref.cls(mi.full_name).FromString(data)
         if norm(schema, mi, snap_ref(schema, mi, r)) != want:
             raise RuntimeError("reference disagrees on an interleaved encoding (harness)")
-        m = guard("parse", cls().parse, data)
+        m = guard("parse", decode_via, cls(), data, entry)
         got = norm(schema, mi, guard("snapshot", snap_bp, schema, mi, m))
         if got != want:
             out.append(("unknown_disturbs_known", f"got {got!r:.300} want {want!r:.300}"))
@@ -279,13 +335,14 @@ def targets(ctx):
 
     def unk_ev(case):
         name, tree, unknown, pos = case["msg"], case["tree"], case["unknown"], case["pos"]
-        found = unk_clauses(name, tree, unknown, pos)
+        entry = case.get("entry", "parse")
+        found = unk_clauses(name, tree, unknown, pos, entry)
         wts = sorted({u["wt"] for u in unknown})
         fails = []
         for cl, d in found:
-            single = [u for i, u in enumerate(unknown) if any(c2 == cl for c2, _ in unk_clauses(name, tree, [u], [pos[i]]))]
+            single = [u for i, u in enumerate(unknown) if any(c2 == cl for c2, _ in unk_clauses(name, tree, [u], [pos[i]], entry))]
             where = "+".join(sorted({f"wt{u['wt']}" + ("_bigtag" if u["n"] >= 2**21 else "") for u in single})) or "combo"
-            fails.append(Failure(cl, f"unk|{cl}|{where}", f"case={case!r} :: {d}"))
+            fails.append(Failure(cl, f"unk|{cl}|{where}|{entry}", f"case={case!r} :: {d}"))
         n_known = len(tree)
         labs = [f"msg:{name}"] + [f"wt:{w}" for w in wts] + [f"n_unknown:{len(unknown)}"]
         for p in pos:
@@ -301,6 +358,7 @@ def targets(ctx):
         us = draw(st.lists(cm.unknown_record_strategy(cm.unused_numbers(mi)), min_size=1, max_size=4))
         case["unknown"] = us
         case["pos"] = draw(st.lists(st.integers(0, 40), min_size=len(us), max_size=len(us)))
+        case["entry"] = draw(st.sampled_from(ENTRIES))
         return case
 
     return [
